@@ -1,6 +1,6 @@
 /-
-  Model of `may::sync::RwLock` (src/sync/rwlock.rs, with the fixes F1a/F1b applied; `tstepG true` is the
-  pinned tree before the fixes, kept for the negation witnesses of `Props/C12.lean`).
+  Model of `may::sync::RwLock` (src/sync/rwlock.rs, with the fixes F1a/F1b/F1c applied; `tstepG true` is the
+  pinned tree before these fixes, kept for the negation witnesses of `Props/C12.lean`).
 
   RwLock = `rlock` (a may `Mutex<usize>` guarding the reader count `r`)
          + the global gate (`cnt`, `to_wake`, the SyncBlocker hand-over incl. the cancel path)
@@ -16,26 +16,30 @@
   One `tstep` case per hooked shared-memory operation, in program order:
 
       read():        rlk  rlock.lock()                 (Mutex steps m0cas … held)
-                     rlp  MutexGuard::new: rlock.poison.failed.load ; `if *r == 0`
+                     rlp  MutexGuard::new: rlock.poison.failed.load
+                     rld  `if *r == 0`                 (hooked access to the protected counter: event `load -> r`)
                      gld  gate try_lock: cnt.load      glk  gate lock(): CAS / push / fetch_add / pop+wake / park / cancel path
-                          `*r += 1`                    (non-atomic, under rlock: folded into the step before it)
+                     rinc `*r += 1`                    (event `add 1 -> old r`)
                      psn  RwLockReadGuard::new: poison.failed.load
                      rul  drop(r): rlock unlock        (Mutex steps p0fadd …)  ; return Ok / Poisoned(guard)
-      try_read():    rlk (try: t0cas) rlp gld glk(t0cas) psn rul        WouldBlock: rul … return 0
-      read guard drop = read_unlock():   rlk rlp(`*r -= 1; if *r == 0`) gul(gate unlock()) rul
+      try_read():    rlk (try: t0cas) rlp rld gld glk(t0cas) rinc psn rul        WouldBlock: rul … return 0
+      read guard drop = read_unlock():   rlk rlp rdec(`*r -= 1`, event `sub 1 -> old r`) rck(`if *r == 0`, event `load -> r`)
+                                         gul(gate unlock()) rul
       write():       gld glk psn ; try_write(): gld glk(t0cas) psn
       write guard drop:  wpo (poison.failed.store(1) iff unwinding)  gul
       is_poisoned(): isp
 
-  `*r` is only touched between `rlp` and `rul` of one call, i.e. while the actor holds `rlock`; that these
-  sections exclude each other is theorem `rwlock_rlock_sections_exclusive` (from C05's mutual exclusion for the
-  component), which is what justifies folding the non-atomic accesses into the adjacent steps.
+  `*r` is a plain `usize` protected by rlock; under `cfg(may_verif)` it is a `verif::Counted`, whose every comparison and
+  `+=` / `-=` is one trace event and one det schedule point, so every access is a step of its own here and the replay
+  compares the order AND the values of the accesses. `*r` is only touched between `rlp` and `rul` of one call, i.e.
+  while the actor holds `rlock`; that these sections exclude each other is theorem `rwlock_rlock_sections_exclusive`
+  (from C05's mutual exclusion for the component).
 
   Guards are not program points: `RG`/`WG` count the read/write guards handed out (at the *return* of
   read/try_read/write/try_write, inside `Ok` or inside `Poisoned`) and not yet given to `drop` (decremented at
   the *call* of the drop). Guards are `Send`: any idle actor may drop one.
 
-  Ghost (never read by a non-ghost step): RG, WG, grp ("the reader group holds the gate"), lostR, res.
+  Ghost (never read by a non-ghost step): RG, WG, grp ("the reader group holds the gate"), res.
 -/
 import MayVerif.Model.Sync.Mutex
 namespace MayVerif.RwLock
@@ -48,7 +52,11 @@ inductive Op | read | tryRead | write | tryWrite | dropR | dropW
 inductive Pc
   | idle
   | rlk (o : Op) (p : Mutex.Pc)            -- inside rlock.lock() / rlock.try_lock(), at Mutex pc `p`
-  | rlp (o : Op)                           -- rlock acquired: MutexGuard::new loads rlock's poison flag, then looks at `*r`
+  | rlp (o : Op)                           -- rlock acquired: MutexGuard::new loads rlock's poison flag
+  | rld (o : Op)                           -- read / try_read: `if *r == 0`
+  | rinc (o : Op) (first : Bool)           -- read / try_read: `*r += 1`; `first` (ghost): this call has just taken the gate
+  | rdec                                   -- read_unlock: `*r -= 1`
+  | rck (last : Bool)                      -- read_unlock: `if *r == 0`; `last` (ghost): the decrement went to 0
   | gld (o : Op)                           -- gate try_lock(): `cnt.load`
   | glk (o : Op) (p : Mutex.Pc)            -- gate lock() / try_lock() from the CAS on, at Mutex pc `p`
   | glp (o : Op)                           -- PINNED TREE ONLY (before fix F1b): `poison.get()` after a lost CAS
@@ -73,13 +81,17 @@ structure Sh where
   RG : Nat              -- read guards handed out and not yet dropped
   WG : Nat              -- write guards handed out and not yet dropped
   grp : Bool            -- the reader group holds the gate
-  lostR : Nat           -- read-guard drops whose `rlock.lock()` was cancelled (the count they held is never given back)
   res : Nat → Nat       -- last API result per actor: 0 WouldBlock / done, 1 Ok(guard), 2 Poisoned(guard), 3 cancel panic
 
 /-- environment of a step of the rlock component: `Mutex::lock` ignores a cancel while cancellation is disabled (`b_ignore`) -/
 def menvR : Env → Mutex.Env
   | .abort => .abort
   | .abortIgnore => .abortIgnore
+  | _ => .go
+/-- environment of the `rlock.lock()` inside a read guard's drop (`read_unlock`, fix F1c): cancellation is disabled there, so a
+    cancel that arrives while it is parked takes the `b_ignore` path of `Mutex::lock` and the drop always completes -/
+def menvD : Env → Mutex.Env
+  | .abort | .abortIgnore => .abortIgnore
   | _ => .go
 /-- environment of a step of the gate component: `RwLock::lock` has no `b_ignore` loop, every cancel takes the abort path -/
 def menvG : Env → Mutex.Env
@@ -99,9 +111,9 @@ def reader : Op → Bool
 /-- the gate was acquired on behalf of call `o` -/
 def acquired (pin : Bool) (sh : Sh) (o : Op) : Sh × Pc :=
   if reader o then
-    -- read(): `*r += 1` follows at once; try_read(): fixed code counts first, the pinned code builds the guard first
+    -- read() and the fixed try_read(): `*r += 1` is next; the pinned try_read() builds the guard first
     if pin && o == .tryRead then ({ sh with grp := true }, .psn o)
-    else ({ sh with r := sh.r + 1, grp := true }, .psn o)
+    else (sh, .rinc o true)
   else (sh, .psn o)
 
 /-- gate try_lock() reported WouldBlock to a non-blocking call / gate lock() was cancelled -/
@@ -129,26 +141,41 @@ def tstepG (pin : Bool) (sh : Sh) (me : Nat) : Pc → Env → Option (Sh × Pc)
   | .wpo, _ => some ({ sh with poison := true }, .gul .dropW (.p0fadd .fin))
   -- rlock.lock() / rlock.try_lock(): the Mutex component
   | .rlk o p, e =>
-      match Mutex.tstep sh.rl me p (menvR e) with
+      match Mutex.tstep sh.rl me p (if !pin && o == .dropR then menvD e else menvR e) with
       | none => none
       | some (rl', p') =>
         if p' = .held then some ({ sh with rl := rl' }, .rlp o)
         else if p' = .idle then
-          -- try_lock lost its CAS (WouldBlock), or lock() was cancelled while parked (cancel panic out of the call;
-          -- out of a read guard's drop the count is lost)
-          some ({ sh with rl := rl', res := upd sh.res me (if o = .tryRead then 0 else 3),
-                          lostR := if o = .dropR then sh.lostR + 1 else sh.lostR }, .idle)
+          -- try_lock lost its CAS (WouldBlock), or lock() was cancelled while parked (cancel panic out of the call).
+          -- A read guard's drop is never left like this (fix F1c; `rwlock_drop_always_completes`); on the pinned tree it
+          -- was, and the count the guard held was lost (`rwlock_pinned_F1c_drop_cancelled_leaks`).
+          if !pin && o == .dropR then none
+          else some ({ sh with rl := rl', res := upd sh.res me (if o = .tryRead then 0 else 3) }, .idle)
         else some ({ sh with rl := rl' }, .rlk o p')
   | .rlp o, _ =>
-      if o = .dropR then
-        if sh.r ≤ 0 then none                     -- `*r -= 1` underflows (debug: panic): proved unreachable for pin = false
-        else if sh.r = 1 then some ({ sh with r := 0, grp := false }, .gul .dropR (.p0fadd .fin))
-        else some ({ sh with r := sh.r - 1 }, .rul .dropR 0 (.p0fadd .fin))
-      else if reader o then
-        if sh.r = 0 then some (sh, .gld o)
-        else if pin && o == .tryRead then some (sh, .psn o)
-        else some ({ sh with r := sh.r + 1 }, .psn o)
+      if o = .dropR then some (sh, .rdec)
+      else if reader o then some (sh, .rld o)
       else none                                     -- only read / try_read / read_unlock take rlock
+  | .rld o, _ =>
+      if reader o then
+        if sh.r = 0 then some (sh, .gld o)          -- first reader: take the gate
+        else if pin && o == .tryRead then some (sh, .psn o)
+        else some (sh, .rinc o false)
+      else none
+  | .rinc o first, _ =>
+      -- the reader group holds the gate from the first reader's count on
+      if reader o then
+        some ({ sh with r := sh.r + 1, grp := if first then true else sh.grp },
+              if pin && o == .tryRead then .rul o 1 (.p0fadd .fin) else .psn o)
+      else none
+  | .rdec, _ =>
+      if sh.r ≤ 0 then none                         -- `*r -= 1` underflows (debug: panic): proved unreachable for pin = false
+      else some ({ sh with r := sh.r - 1, grp := if sh.r = 1 then false else sh.grp }, .rck (sh.r = 1))
+  | .rck last, _ =>
+      -- the code branches on the value it reads; `last` is the ghost knowledge of the decrement: they agree
+      -- (`rwlock_last_reader_knows`), the other two combinations are unreachable
+      if sh.r = 0 then (if last then some (sh, .gul .dropR (.p0fadd .fin)) else none)
+      else (if last then none else some (sh, .rul .dropR 0 (.p0fadd .fin)))
   -- gate try_lock(): load
   | .gld o, _ =>
       if sh.g.cnt = 1 then some (sh, .glk o (if blocking o then .m0cas else .t0cas))
@@ -184,7 +211,7 @@ def tstepG (pin : Bool) (sh : Sh) (me : Nat) : Pc → Env → Option (Sh × Pc)
       if reader o then
         if pin && o == .tryRead then
           -- pinned try_read: `let g = RwLockReadGuard::new(self)?; *r += 1;` – the `?` leaves before the count
-          if sh.poison then some (sh, .rul o 2 (.p0fadd .fin)) else some ({ sh with r := sh.r + 1 }, .rul o 1 (.p0fadd .fin))
+          if sh.poison then some (sh, .rul o 2 (.p0fadd .fin)) else some (sh, .rinc o false)
         else some (sh, .rul o v (.p0fadd .fin))
       else some ({ sh with WG := sh.WG + 1, res := upd sh.res me v }, .idle)
   -- gate unlock()
@@ -225,7 +252,7 @@ def step (s : St) (t : Nat) (e : Env) : Option St := stepG false s t e
 def sh0 : Mutex.Sh := (Mutex.init 0 1).sh
 
 def init (n : Nat) (poisoned : Bool) : St :=
-  ⟨n, ⟨sh0, sh0, 0, poisoned, 0, 0, false, 0, fun _ => 0⟩, fun _ => .idle⟩
+  ⟨n, ⟨sh0, sh0, 0, poisoned, 0, 0, false, fun _ => 0⟩, fun _ => .idle⟩
 
 def runG (pin : Bool) (s : St) : List (Nat × Env) → St
   | [] => s
